@@ -415,11 +415,11 @@ pub enum Source {
 // sort of numbered names or a per-row buffer would give out: > 64 / > 100 terminals, > 128 nonterminals,
 // > 256 states, rules of > 32 symbols, enums with > 100 variants.
 
-pub const SCALED_KINDS: usize = 6;
+pub const SCALED_KINDS: usize = 7;
 /// largest parameter per kind (chosen so that kiki, the reference and rustc stay within ~1 s / ~10 s)
-pub const SCALED_MAX: [usize; SCALED_KINDS] = [24, 300, 120, 100, 60, 40];
+pub const SCALED_MAX: [usize; SCALED_KINDS] = [24, 300, 120, 100, 60, 40, 60];
 pub const SCALED_NAMES: [&str; SCALED_KINDS] =
-    ["expression-levels", "unit-chain", "many-terminals", "statement-kinds", "optional-layers", "long-rule"];
+    ["expression-levels", "unit-chain", "many-terminals", "statement-kinds", "optional-layers", "long-rule", "many-declarations"];
 
 fn fs(bits: &mut u32, syms: &[Sym]) -> SFs {
     // the form and the used/skipped mask come from a bit stream so that every family also varies its fieldsets
@@ -486,6 +486,15 @@ pub fn scaled_spec(kind: usize, k: usize, seed: u16) -> Spec {
             }
             nts.push(SNt { is_enum: false, variants: vec![fs(b, &[T(k)])] });
             (k + 1, nts, 0)
+        }
+        6 => {
+            // S -> N_1 | ... | N_k; N_i -> t_i t_i?: a file with k + 3 items, k terminals, an enum with k variants — long lists
+            // of every kind the front end flattens (items, variants, terminal variants), small automaton
+            let mut nts = vec![SNt { is_enum: true, variants: (0..k).map(|i| fs(b, &[N(i + 1)])).collect() }];
+            for i in 0..k {
+                nts.push(SNt { is_enum: false, variants: vec![fs(b, &[T(i), T((i + 1) % k)])] });
+            }
+            (k, nts, 0)
         }
         _ => {
             // S -> t0 A t1 A t0 A ... (k symbols); A -> t2 | t2 A
